@@ -523,3 +523,87 @@ func TestCASStress(t *testing.T) {
 	}
 	_ = strings.Join
 }
+
+// TestFirstWriteStress: un-gated callers race on the FIRST write of fresh keys with a large value, so
+// that whatever a store does between reading "no value" and publishing the first value (clone, encode)
+// takes long enough for another caller to get in. Chain oracle per key.
+func TestFirstWriteStress(t *testing.T) {
+	filler := func(d *ring.Desc, c int) {
+		for i := 0; i < 400; i++ {
+			id := fmt.Sprintf("filler-%d-%03d", c, i)
+			d.Ingesters[id] = ring.InstanceDesc{Timestamp: 1, Addr: id, Tokens: []uint32{uint32(i), uint32(i + 1000), uint32(i + 2000)}}
+		}
+	}
+	for _, be := range backends {
+		sc := scenario{Backend: be, Wrapper: "bare"}
+		e, err := newEnv(sc)
+		if err != nil {
+			t.Fatalf("setup: %v", err)
+		}
+		for _, m := range e.mkvs {
+			m.VerifSetMaxCasRetries(1000)
+		}
+		ctx := context.Background()
+		rounds, nCallers := vx.Pick(150, 1500), 4
+		for r := 0; r < rounds; r++ {
+			key := fmt.Sprintf("k%d", r)
+			var wg sync.WaitGroup
+			var mu sync.Mutex
+			var ins []int64
+			startGun := make(chan struct{})
+			for c := 0; c < nCallers; c++ {
+				wg.Add(1)
+				go func(c int) {
+					defer wg.Done()
+					<-startGun
+					var in int64
+					err := e.client.CAS(ctx, key, func(v interface{}) (interface{}, bool, error) {
+						in = counterOf(v)
+						d := ring.GetOrCreateRingDesc(v)
+						if in == 0 {
+							filler(d, c)
+						}
+						cnt := d.Ingesters["counter"]
+						cnt.Timestamp = in + 1
+						d.Ingesters["counter"] = cnt
+						d.Ingesters[fmt.Sprintf("op-%d", c)] = ring.InstanceDesc{Timestamp: 1, Addr: "x"}
+						return d, true, nil
+					})
+					if err == nil {
+						mu.Lock()
+						ins = append(ins, in)
+						mu.Unlock()
+					}
+				}(c)
+			}
+			close(startGun)
+			wg.Wait()
+			vx.Eval(1)
+			sort.Slice(ins, func(a, b int) bool { return ins[a] < ins[b] })
+			v, _ := e.client.Get(ctx, key)
+			for i, in := range ins {
+				if in != int64(i) {
+					e.close()
+					t.Fatalf("[%s] first-write race on key %s: the successful calls saw the inputs %v, want 0..%d once each (final counter %d)", be, key, ins, len(ins)-1, counterOf(v))
+				}
+			}
+			d := ring.GetOrCreateRingDesc(v)
+			if counterOf(v) != int64(len(ins)) {
+				e.close()
+				t.Fatalf("[%s] key %s: final counter %d, %d successes", be, key, counterOf(v), len(ins))
+			}
+			ops := 0
+			for id := range d.Ingesters {
+				if strings.HasPrefix(id, "op-") {
+					ops++
+				}
+			}
+			if ops != len(ins) {
+				e.close()
+				t.Fatalf("[%s] key %s: %d calls succeeded but the final value records %d of them: an update was overwritten unseen", be, key, len(ins), ops)
+			}
+		}
+		vx.NonTrivial(vx.FP("first-write-stress", be))
+		e.close()
+	}
+}
